@@ -68,6 +68,11 @@ type FuncCtx struct {
 	specHdr  []string
 	ghostDecl map[string]bool
 	assumptions []string
+	// inlining of callees without a contract (inline.go)
+	inl         *inlineFrame
+	inlineDepth int
+	inlineStack []*ssa.Function
+	rootFn      *ssa.Function
 	// calls to functions without any contract (see VerifyFunc)
 	sawUnknownCall bool
 	preRegistered  bool
@@ -912,6 +917,15 @@ func (fc *FuncCtx) execPhi(b *ssa.BasicBlock, phi *ssa.Phi) {
 }
 
 func (fc *FuncCtx) execReturn(ret *ssa.Return, st *State, reach string) {
+	if fc.inl != nil {
+		// a return point of an inlined callee: hand state and results back to the call site
+		var results []Val
+		for _, r := range ret.Results {
+			results = append(results, fc.val(st, r))
+		}
+		fc.inl.rets = append(fc.inl.rets, inlineRet{reach: reach, st: st.clone(), results: results})
+		return
+	}
 	k := fc.nRet
 	fc.nRet++
 	suffix := ""
